@@ -1377,3 +1377,55 @@ def pdict_get(eng, st, base, key, node):
             eng.oblige(st, "noexc:KeyError@L%d" % node.lineno, 'noexc', cur != 0, node)
         st.assume(cur != 0)
     return Val(('list', 'int'), cur)
+
+
+# ---------------------------------------------------------------- sets of ints, random.sample
+@model('builtins.set')
+def m_set(eng, st, args, kw, node):
+    if args or kw:
+        raise Unsupported("set(iterable)")
+    r = eng.new_ref(st)
+    st.heap.wr('set:', r, z3.K(I, z3.BoolVal(False)))
+    st.heap.wr('len', r, z3.IntVal(0))
+    return Val(('set',), r)
+
+
+@method('set', 'add')
+def set_add(eng, st, base, args, kw, node):
+    x = to_int(args[0])
+    eng.check_store(st, base.t, None, node, 'set-add')
+    mem = st.heap.rd('set:', base.t)
+    n = st.heap.rd('len', base.t)
+    st.heap.wr('len', base.t, n + z3.If(z3.Select(mem, x), 0, 1))
+    st.heap.wr('set:', base.t, z3.Store(mem, x, z3.BoolVal(True)))
+    return NONE
+
+
+@model('random.sample')
+def m_random_sample(eng, st, args, kw, node):
+    """ASSUMED: random.sample(range(n), k) returns a fresh list of k pairwise distinct ints in [0, n);
+    ValueError when k > n or k < 0; consumes the global `random` generator (effect, see C14)."""
+    a0 = node.args[0]
+    parts = eng.resolve_dotted(a0.func) if isinstance(a0, ast.Call) else None
+    if parts != ['range'] or len(a0.args) != 1 or kw:
+        raise Unsupported("random.sample population form")
+    used(eng, "random.sample(range(n), k): fresh list of k pairwise distinct ints in [0,n); ValueError if k>n or k<0; "
+              "reads and advances the global `random` generator")
+    n = to_int(eng.ev(a0.args[0], st))
+    k = to_int(args[1]) if len(args) > 1 else None
+    if k is None:
+        raise Unsupported("random.sample arity")
+    bad = z3.Or(k < 0, k > z3.If(n > 0, n, 0))
+    if 'ValueError' in eng.frame.exc_ok:
+        st.pending_raises.append((bad, 'ValueError', len(st.pc)))
+    else:
+        eng.oblige(st, "noexc:sample-larger-than-population@L%d" % node.lineno, 'noexc', z3.Not(bad), node)
+    st.assume(z3.Not(bad))
+    out = z3.Const(fresh_name('sample'), z3.ArraySort(I, I))
+    i, j = z3.Int(fresh_name('i')), z3.Int(fresh_name('j'))
+    st.assume(z3.ForAll([i], z3.Implies(z3.And(0 <= i, i < k), z3.And(0 <= z3.Select(out, i), z3.Select(out, i) < n)),
+                        patterns=[z3.Select(out, i)]))
+    st.assume(z3.ForAll([i, j], z3.Implies(z3.And(0 <= i, i < j, j < k), z3.Select(out, i) != z3.Select(out, j)),
+                        patterns=[z3.MultiPattern(z3.Select(out, i), z3.Select(out, j))]))
+    st.ghost['effect:random'] = True
+    return eng.mk_list(st, 'int', k, out)
